@@ -166,8 +166,9 @@ def generic_arg(text, k=0):
 
 
 def install(w):
-    from . import models_core, models_coll, models_iter, models_env
+    from . import models_core, models_coll, models_iter, models_env, models_wire
     models_core.install(w)
     models_coll.install(w)
     models_iter.install(w)
     models_env.install(w)
+    models_wire.install(w)
